@@ -312,3 +312,54 @@ M("c15-nf-float", "C15", RSF, "            nf = int(self.nf)", "            nf =
 M("c15-none-dropped", "C15", OUF, "        for f in self:\n            out[f] = copy.copy(self[f])\n", "        for f in self:\n            if self[f] is None:\n                continue\n            out[f] = copy.copy(self[f])\n", expect="C15.roundtrip")
 M("c15-filter-asym", "C15", OUF, "            for metafield, metavalue in metadata.items():\n                if not on.ObservableName.is_valid(metafield) or metavalue is None:", "            for metafield, metavalue in metadata.items():\n                if metafield not in on.kinds or metavalue is None:", expect="C15.roundtrip")
 B("c15-listcomp", "C15", RSF, "        for o, (v, e) in self.orders.items():\n            d[\"orders\"].append(\n                dict(order=list(o), values=v.tolist(), errors=e.tolist())\n            )\n        return d", "        d[\"orders\"] = [dict(order=list(o), values=v.tolist(), errors=e.tolist()) for o, (v, e) in self.orders.items()]\n        return d")
+
+
+# ----------------------------------------------------------------------------- independently seeded regressions (/verif/seeded/<id>/patch.diff)
+def _hunks(diff_text):
+    """Unified diff -> [(file relative to src/yadism, old block, new block)] per hunk."""
+    out, file, old, new = [], None, None, None
+
+    def flush():
+        if file and old is not None and (old or new) and old != new:
+            out.append((file, "".join(old), "".join(new)))
+
+    for line in diff_text.splitlines(keepends=True):
+        if line.startswith("+++ "):
+            flush()
+            path = line[4:].strip()
+            path = path[2:] if path.startswith("b/") else path
+            file = path.split("src/yadism/", 1)[1] if "src/yadism/" in path else None
+            old = new = None
+        elif line.startswith("--- ") or line.startswith("diff ") or line.startswith("index "):
+            continue
+        elif line.startswith("@@"):
+            flush()
+            old, new = [], []
+        elif old is not None:
+            if line.startswith("-"):
+                old.append(line[1:])
+            elif line.startswith("+"):
+                new.append(line[1:])
+            elif line.startswith(" ") or line == "\n":
+                old.append(line[1:] if line.startswith(" ") else line)
+                new.append(line[1:] if line.startswith(" ") else line)
+    flush()
+    return out
+
+
+def _seeded():
+    import json
+    import pathlib
+
+    root = pathlib.Path(__file__).resolve().parent.parent.parent / "seeded"
+    for d in sorted(root.glob("*/")):
+        meta, patch = d / "meta.json", d / "patch.diff"
+        if not (meta.exists() and patch.exists()):
+            continue
+        m = json.loads(meta.read_text())
+        edits = _hunks(patch.read_text())
+        if edits:
+            CORPUS.append(dict(id=f"seeded-{d.name}", prop=m["property"], kind="M", edits=edits, expect=m.get("expect")))
+
+
+_seeded()
